@@ -76,8 +76,12 @@ func (c *Context) SpawnChild(p Producer, name string, opts ...OptFunc) *PID {
 	}
 	proc := newProcess(c.engine, options)
 	proc.context.parentCtx = c
-	pid := c.engine.SpawnProc(proc)
-	c.children.Set(pid.ID, pid)
+	// The child is entered into the children map before it is started: a child
+	// that ends while it is being started (a panic in Started with the restart
+	// budget exhausted) removes itself in its cleanup, and would otherwise be
+	// added afterwards and be listed forever.
+	c.children.Set(proc.PID().ID, proc.PID())
+	c.engine.SpawnProc(proc)
 
 	return proc.PID()
 }
